@@ -149,6 +149,13 @@ class Prop(object):
                 if not pb.verify(m3):
                     stage = 'verify'
                     probs.append('PGPy rejects a valid cleartext message written by the independent implementation')
+            # the same message as a CRLF file (mail gateways, Windows): must verify as well
+            m4 = pgpy.PGPMessage.from_blob(txt.replace('\n', '\r\n'))
+            r.transitions += 1
+            for k, rw, pb in signers:
+                if not pb.verify(m4):
+                    stage = stage or 'verify-crlf'
+                    probs.append('PGPy rejects the same message when the file uses CRLF line ends')
             want = text.replace('\r\n', '\n')
             if m3.message != want and not probs:
                 stage = 'text'
